@@ -1245,7 +1245,48 @@ func sameValue(a, b ssa.Value) bool {
 			return true
 		}
 	}
+	if ok1 && ok2 && ua.Op == token.MUL && ub.Op == token.MUL {
+		fa, oka := ua.X.(*ssa.FieldAddr)
+		fb, okb := ub.X.(*ssa.FieldAddr)
+		if oka && okb && fa.X == fb.X && fa.Field == fb.Field {
+			if _, isAlloc := fa.X.(*ssa.Alloc); isAlloc {
+				return true // two reads of the same field of one local struct (e.g. the loop variable copy)
+			}
+		}
+	}
 	return false
+}
+
+// phiLeaf is a non-phi value flowing into a phi tree, with the facts known on its incoming edge.
+type phiLeaf struct {
+	Val   ssa.Value
+	Facts []Fact
+}
+
+// phiLeaves enumerates the leaves of the phi tree rooted at v (v itself if it is not a phi).
+func phiLeaves(v ssa.Value) []phiLeaf {
+	var out []phiLeaf
+	seen := map[ssa.Value]bool{}
+	var walk func(p *ssa.Phi)
+	walk = func(p *ssa.Phi) {
+		if seen[p] {
+			return
+		}
+		seen[p] = true
+		for i, e := range p.Edges {
+			if q, ok := e.(*ssa.Phi); ok {
+				walk(q)
+				continue
+			}
+			out = append(out, phiLeaf{e, edgeFacts(p.Block().Preds[i], p.Block())})
+		}
+	}
+	if p, ok := v.(*ssa.Phi); ok {
+		walk(p)
+	} else {
+		out = append(out, phiLeaf{v, nil})
+	}
+	return out
 }
 
 // RangeValueOf matches the value variable of `for _, v := range m` where the
